@@ -130,7 +130,9 @@ func (server *GripServer) updateGraphMap() {
 			}
 		}
 	}
+	server.stateMu.Lock()
 	server.graphMap = o
+	server.stateMu.Unlock()
 }
 
 func (server *GripServer) addFullGraph(ctx context.Context, graphName string, schema *gripql.Graph) error {
